@@ -18,7 +18,7 @@ DigestText(draft, proof) == AlgName(draft) \o <<61>> \o B64Enc(proof, draft = "0
 \* Outcome "ok" / "err", or "either" for the two places where the text is decoded
 \* leniently by common base64 decoders and the property does not care (Dev_B64Lenient):
 \* non-zero unused bits in the last character, CR / LF inside the value.
-IndexOf(s, c) == LET h == {i \in 1..Len(s) : s[i] = c} IN IF h = {} THEN 0 ELSE CHOOSE i \in h : \A j \in h : i <= j
+IndexOf(s, c) == FirstIn(s, 1, Len(s), LAMBDA z : z = c)
 ParseDigest(draft, text) ==
   LET eq == IndexOf(text, 61) IN
   IF eq = 0 THEN [res |-> "err", proof |-> <<>>]
